@@ -1,5 +1,6 @@
 mod common;
 mod engine;
+mod gen;
 mod props;
 
 use engine::{Tier, WorkerArgs};
